@@ -56,6 +56,15 @@ def main():
                 print("cannot apply patch in worktree:", o)
                 sys.exit(2)
         demo_cmd = meta.get("demo_cmd") or ""
+        # the demo is already present in the worktree: never re-apply it
+        segs = []
+        for line in demo_cmd.split("\n"):
+            line = re.sub(r"\s#.*$", "", line)
+            for seg in line.split("&&"):
+                seg = seg.strip()
+                if seg and not ("git apply" in seg and "demo" in seg) and not seg.startswith("#"):
+                    segs.append(seg)
+        demo_cmd = " && ".join(segs)
         if "cargo" not in demo_cmd:
             print("meta.json has no usable demo_cmd")
             sys.exit(2)
